@@ -75,7 +75,7 @@ type caseT struct {
 
 const (
 	soloBudget  = 8  // consecutive steps a thread may take inside one call before it is parked for good
-	totalBudget = 40 // steps inside one call
+	totalBudget = 200 // steps inside one call (a call may be long: a striped counter sums 64 cells)
 )
 
 var hook atomic.Pointer[vsched.Sched]
@@ -189,17 +189,44 @@ func (r *runner) allowed() []int {
 	return out
 }
 
+// unstick: nobody can move, but a thread is only parked because it ran alone for soloBudget steps
+// (not because its call used up totalBudget): it is the only one who can make progress, let it.
+// Without this a long call (more than soloBudget shared-memory operations) never completed once
+// the other goroutines had finished, and the monitors held vacuously on the prefix.
+func (r *runner) unstick() bool {
+	any := false
+	for u := range r.stuck {
+		if r.stuck[u] && r.inCall[u] && r.inSteps[u] < totalBudget && !r.s.Finished(u) {
+			r.stuck[u] = false
+			r.solo[u] = 0
+			any = true
+		}
+	}
+	return any
+}
+
 func (r *runner) stepThread(t int) {
 	res := r.s.Step(t)
 	r.site[t] = res.Site
-	it := itemT{Tid: t, Ev: "tau", Site: res.Site}
-	if res.Stutter {
+	if len(res.Events) > 1 {
+		// a call that made no yield at all (no shared-memory operation the instrumenter knows of:
+		// a wrapper answering from a field of its own, ..): its call and its return happened in
+		// one scheduler step; they are recorded as two items of the same thread.  The model has
+		// no such call, so a structural comparison reports the difference.
+		for _, e := range res.Events {
+			r.record(t, res.Site, false, []vsched.Event{e})
+		}
+		return
+	}
+	r.record(t, res.Site, res.Stutter, res.Events)
+}
+
+func (r *runner) record(t int, site int, stutter bool, events []vsched.Event) {
+	it := itemT{Tid: t, Ev: "tau", Site: site}
+	if stutter {
 		it.Ev = "stutter"
 	}
-	if len(res.Events) > 1 {
-		panic(fmt.Sprintf("thread %d produced %d events in one step", t, len(res.Events)))
-	}
-	for _, e := range res.Events {
+	for _, e := range events {
 		c := r.progs[t][e.Index]
 		cc := c
 		it.Call = &cc
@@ -234,8 +261,11 @@ func (r *runner) stepThread(t int) {
 			}
 		}
 	}
-	if r.inCall[t] && res.Site != 0 {
-		it.Site = canonSite(r.progs[t][r.callIdx[t]], res.Site)
+	if r.inCall[t] && site != 0 {
+		it.Site = canonSite(r.progs[t][r.callIdx[t]], site)
+	}
+	if !r.inCall[t] {
+		it.Site = 0
 	}
 	if it.Ev == "tau" {
 		r.inSteps[t]++
@@ -305,7 +335,7 @@ func (r *runner) probeTimeout() int {
 // SPINNING (it keeps making yields: the pinned Wait loop) - it is then unwound at its next yield.
 // One that makes no yields is either blocked for good or this process is starved of CPU (the 5 ms
 // timer of a WaitTimeout has been seen to take longer than 400 ms on a machine with a load of 150):
-// it gets 6 more seconds before it is declared hung and abandoned.
+// it gets 3 more seconds before it is declared hung and abandoned.
 func (r *runner) watchdog(done chan int) int {
 	y0 := r.s.ProbeYields.Load()
 	select {
@@ -317,7 +347,7 @@ func (r *runner) watchdog(done chan int) int {
 		select {
 		case v := <-done:
 			return v
-		case <-time.After(6 * time.Second):
+		case <-time.After(3 * time.Second):
 		}
 	}
 	r.s.ProbeAbort.Store(true)
@@ -345,7 +375,8 @@ func (r *runner) probeCtx() int {
 				done <- 2
 			}
 		}()
-		ctx, cancel := context.WithCancel(context.Background())
+		// cancelled before the call; it also carries a far deadline, which must not matter
+		ctx, cancel := context.WithTimeout(context.Background(), time.Hour)
 		cancel()
 		if err := r.wg.WaitCTX(ctx); err == nil {
 			done <- 0
@@ -391,8 +422,11 @@ func runCase(kind, name string, progs [][]callT, ch chooser, probeTmo bool) case
 	last, probe := -1, len(progs)-1
 	var probes []probeT
 	rests := 0
-	for step := 0; step < 400; step++ {
+	for step := 0; step < 3000; step++ {
 		al := r.allowed()
+		if len(al) == 0 && r.unstick() {
+			al = r.allowed()
+		}
 		var main []int
 		for _, t := range al {
 			if t != probe {
@@ -886,6 +920,14 @@ var corpus = []corpusEntry{
 	{"add0-inside-and-after-cycle", [][]callT{{add(1), add(0), wait, add(-1), add(0), wait}}, nil},
 	{"add3-dec3", [][]callT{{add(3), wait, add(-3)}}, nil},
 	{"add2-dec-dec", [][]callT{{add(2), add(-1), add(-1)}, {wait}}, []int{0, 0, 1, 1, 0, 0, 0, 0}},
+	// big deltas: the count is an `int`; a counter narrowed to 32 bits wraps at 1<<31 / 1<<32
+	// (two Add(1<<31) give 0: the sentinel is installed and the waiters' channel closed at count
+	// 2^32), one stored in 64 bits must carry 1<<62
+	{"big-2^31-twice", [][]callT{{add(1 << 31), wait, add(1 << 31), wait, add(-(1 << 31)), add(-(1 << 31)), wait}}, nil},
+	{"big-2^31|2^31-wait", [][]callT{{add(1 << 31)}, {add(1 << 31), wait}}, []int{0, 0, 1, 1, 0, 1, 1, 1}},
+	{"big-2^32", [][]callT{{add(1 << 32), wait, add(-(1 << 32)), wait}}, nil},
+	{"big-2^62", [][]callT{{add(1 << 62), wait, add(-(1 << 62)), wait}}, nil},
+	{"big-2^31-minus-1-plus-1", [][]callT{{add(1<<31 - 1), inc, wait, dec, add(-(1<<31 - 1))}}, nil},
 }
 
 func withProbe(p [][]callT) [][]callT {
@@ -1003,7 +1045,23 @@ func gCase(c caseT) string {
 // readable constructor form cost 20-35 ms.
 func encCase(c caseT) string {
 	var f []int
-	sgn := func(v int) int { return v + 2048 }
+	// a signed value: one field v+2048 for |v| < 2047, otherwise the escape 4095, a sign field and
+	// the magnitude in six 12-bit fields (little endian) - deltas such as 1<<31, 1<<32, 1<<62
+	sgn := func(v int) []int {
+		if v > -2047 && v < 2047 {
+			return []int{v + 2048}
+		}
+		neg, m := 0, uint64(v)
+		if v < 0 {
+			neg, m = 1, uint64(-v)
+		}
+		out := []int{4095, neg}
+		for i := 0; i < 6; i++ {
+			out = append(out, int(m&4095))
+			m >>= 12
+		}
+		return out
+	}
 	f = append(f, len(c.Progs))
 	for _, p := range c.Progs {
 		f = append(f, len(p))
@@ -1012,7 +1070,8 @@ func encCase(c caseT) string {
 			if cl.K != "add" {
 				k = 1
 			}
-			f = append(f, k, sgn(cl.D))
+			f = append(f, k)
+			f = append(f, sgn(cl.D)...)
 		}
 	}
 	f = append(f, c.Tmo, len(c.Obs))
@@ -1028,7 +1087,11 @@ func encCase(c caseT) string {
 			}
 			d = it.Call.D
 		}
-		f = append(f, it.Tid, ev, k, sgn(d), sgn(it.Val), sgn(it.Count), it.Site, len(it.Closed))
+		f = append(f, it.Tid, ev, k)
+		f = append(f, sgn(d)...)
+		f = append(f, sgn(it.Val)...)
+		f = append(f, sgn(it.Count)...)
+		f = append(f, it.Site, len(it.Closed))
 		f = append(f, it.Closed...)
 	}
 	f = append(f, len(c.Probes))
@@ -1063,7 +1126,22 @@ type emitter struct {
 	dup  int
 }
 
+// totalBudget of cases / bytes of one harness process: enumerations stop when it is used up (the
+// ENUM line then says complete=false); a source with many yield points per call otherwise makes
+// the bounded-preemption enumerations explode (one run reached 930 000 cases and 6 GB of output)
+var maxTotalCases = 1 << 30
+var maxTotalBytes = int64(1) << 40
+var emittedBytes int64
+
+func budgetLeft(e *emitter) bool {
+	return e.out.N < maxTotalCases && emittedBytes < maxTotalBytes
+}
+
 func (e *emitter) emit(c caseT) {
+	if !budgetLeft(e) {
+		return
+	}
+	emittedBytes += int64(200 * len(c.Obs))
 	if e.seen != nil {
 		key := fmt.Sprint(c.Progs, c.Sched)
 		if e.seen[key] {
@@ -1159,6 +1237,92 @@ type stressBad struct {
 	What    string    `json:"what"`
 }
 
+// doAdd makes an Add call the way the client program says: through Inc() / Dec() for via-calls
+func doAdd(wg *gsync.SelectableWaitGroup, c callT) int {
+	switch {
+	case c.Via == "inc" && c.D == 1:
+		return wg.Inc()
+	case c.Via == "dec" && c.D == -1:
+		return wg.Dec()
+	}
+	return wg.Add(c.D)
+}
+
+// hammer: one unit is held for the whole run (an Inc that returned before anything else starts),
+// so the count is at least 1 at every instant and the conservative lower bound of the property is
+// >= 1 throughout: ANY channel that Wait() hands out during the run and that is observed closed
+// before the unit is given back violates C01, whatever the schedule was - no log order, no
+// linearisation needed.  g goroutines do Inc;Dec / Add(2);Add(-2) / Inc;Inc;Dec;Dec in a loop, the
+// observer calls Wait() and polls what it got.  Finds what needs many operations in flight at once
+// and luck with them (striped counters, settle-after-add designs) rather than one precise schedule.
+func hammer(secs float64, g int) (bool, string) {
+	wg := gsync.NewSelectableWaitGroup()
+	wg.Inc()
+	stop := make(chan struct{})
+	var done sync.WaitGroup
+	var ops atomic.Int64
+	for i := 0; i < g; i++ {
+		i := i
+		done.Add(1)
+		go func() {
+			defer done.Done()
+			defer func() { _ = recover() }()
+			for {
+				select {
+				case <-stop:
+					return
+				default:
+				}
+				switch i % 3 {
+				case 0:
+					wg.Inc()
+					wg.Dec()
+				case 1:
+					wg.Add(2)
+					wg.Add(-2)
+				default:
+					wg.Inc()
+					wg.Inc()
+					wg.Dec()
+					wg.Dec()
+				}
+				ops.Add(1)
+			}
+		}()
+	}
+	bad := ""
+	deadline := time.Now().Add(time.Duration(secs * float64(time.Second)))
+	var held []<-chan struct{}
+	for time.Now().Before(deadline) && bad == "" {
+		res := make(chan (<-chan struct{}), 1)
+		go func() { res <- wg.Wait() }()
+		select {
+		case ch := <-res:
+			held = append(held, ch)
+			if len(held) > 64 {
+				held = held[1:]
+			}
+		case <-time.After(2 * time.Second):
+			bad = "Wait() did not return within 2 s"
+		}
+		for _, ch := range held {
+			if isClosed(ch) {
+				bad = "a channel handed out by Wait() is closed although one unit (an Inc that returned before the run) has been held all the time"
+			}
+		}
+		runtime.Gosched()
+	}
+	close(stop)
+	done.Wait()
+	n := ops.Load()
+	if bad == "" {
+		if c := wg.Count(); c != 1 {
+			bad = fmt.Sprintf("at rest Count()=%d, one unit is held", c)
+		}
+	}
+	return bad != "", fmt.Sprintf("hammer: Inc() held; %d goroutines in Inc;Dec / Add(2);Add(-2) / Inc;Inc;Dec;Dec loops (%d rounds); observer calling Wait(): %s", g, n, bad)
+}
+
 func stress(seed uint64, iters int, secs float64, em *emitter, maxTraces int) int {
 	r := gal.NewRand(seed)
 	var ctr atomic.Uint64
@@ -1168,6 +1332,19 @@ func stress(seed uint64, iters int, secs float64, em *emitter, maxTraces int) in
 		}
 	}
 	bad := 0
+	if secs > 0 {
+		hs := secs / 3
+		if hs > 6 {
+			hs = 6
+		}
+		if isBad, what := hammer(hs, 6); isBad {
+			b, _ := json.Marshal(stressBad{"hammer", [][]callT{{inc}, {inc, dec}, {add(2), add(-2)}, {inc, inc, dec, dec}, {wait}}, what})
+			fmt.Printf("STRESS-BAD %s\n", b)
+			bad++
+		} else {
+			fmt.Println("HAMMER ok:", what)
+		}
+	}
 	report := func(np namedProg, what string) {
 		b, _ := json.Marshal(stressBad{np.name, np.progs, what})
 		fmt.Printf("STRESS-BAD %s\n", b)
@@ -1177,6 +1354,23 @@ func stress(seed uint64, iters int, secs float64, em *emitter, maxTraces int) in
 	it := 0
 	for ; (secs > 0 && time.Now().Before(deadline)) || (secs <= 0 && it < iters); it++ {
 		np := catalogue[r.IntN(len(catalogue))]
+		if it%3 == 2 {
+			// a random program in which every goroutine covers its own decrements
+			p := randProg(r)
+			selfOK := true
+			for _, th := range p {
+				bal := 0
+				for _, c := range th {
+					bal += c.D
+					if bal < 0 {
+						selfOK = false // it would wait for somebody else's increment: catalogue programs do that in a deadlock-free way
+					}
+				}
+			}
+			if selfOK {
+				np = namedProg{"random-program", p}
+			}
+		}
 		wg := gsync.NewSelectableWaitGroup()
 		lg := &stressLog{closed: map[int]bool{}}
 		obsTid := len(np.progs)
@@ -1205,7 +1399,7 @@ func stress(seed uint64, iters int, secs float64, em *emitter, maxTraces int) in
 						lg.observe(obsTid)
 					case c.D >= 0:
 						lg.event(t, "call", c, 0, nil)
-						v := wg.Add(c.D)
+						v := doAdd(wg, c)
 						lg.event(t, "ret", c, v, nil)
 						for i := 0; i < c.D; i++ {
 							sem <- struct{}{}
@@ -1215,7 +1409,7 @@ func stress(seed uint64, iters int, secs float64, em *emitter, maxTraces int) in
 							<-sem
 						}
 						lg.event(t, "call", c, 0, nil)
-						v := wg.Add(c.D)
+						v := doAdd(wg, c)
 						lg.event(t, "ret", c, v, nil)
 					}
 				}
@@ -1225,12 +1419,13 @@ func stress(seed uint64, iters int, secs float64, em *emitter, maxTraces int) in
 		go func() { done.Wait(); close(fin) }()
 		close(start)
 		hung := false
+		giveUp := time.After(3 * time.Second)
 	poll:
 		for {
 			select {
 			case <-fin:
 				break poll
-			case <-time.After(5 * time.Second):
+			case <-giveUp:
 				hung = true
 				break poll
 			default:
@@ -1307,9 +1502,12 @@ func main() {
 	shapes := flag.String("shapes", "", "starve: comma separated shape indices (default all)")
 	procs := flag.Int("procs", 1, "GOMAXPROCS of the scheduled modes (stress always uses the default)")
 	flag.BoolVar(&sparseObs, "sparseobs", false, "call Count() only when no Add is in flight (sources whose tie is broken)")
+	flag.IntVar(&maxTotalCases, "total", 1<<30, "stop emitting after this many cases in this process")
+	totalMB := flag.Int("totalmb", 1<<20, "stop emitting after about this many MB of recorded steps")
 	dms := flag.Int("dms", 300, "deadline: the timeout d in milliseconds")
 	siteMapFile := flag.String("sitemap", "", "canonical site table written by xlate_conc -sitemap")
 	flag.Parse()
+	maxTotalBytes = int64(*totalMB) << 20
 	loadSites(*sitesFile)
 	loadSiteMap(*siteMapFile)
 	if *mode == "deadline" {
@@ -1389,13 +1587,13 @@ func main() {
 		}
 	case "random":
 		for _, np := range sel {
-			for i := 0; i < *n; i++ {
+			for i := 0; i < *n && budgetLeft(em); i++ {
 				st := []float64{0, 0.5, 0.8, 0.9}[i%4]
 				em.emit(runCase("random", np.name, withProbe(np.progs), &randChooser{r, st}, probe()))
 			}
 		}
 	case "randprog":
-		for i := 0; i < *n; i++ {
+		for i := 0; i < *n && budgetLeft(em); i++ {
 			p := randProg(r)
 			for k := 0; k < 3; k++ {
 				st := []float64{0.3, 0.7, 0.9}[k]
@@ -1451,11 +1649,11 @@ func main() {
 					steps += len(cs.Obs)
 					em.emit(cs)
 					cnt++
-					if !d.advance() || cnt >= *maxCases {
+					if !d.advance() || cnt >= *maxCases || !budgetLeft(em) {
 						break
 					}
 				}
-				for i := 0; i < *n; i++ {
+				for i := 0; i < *n && budgetLeft(em); i++ {
 					st := []float64{0.5, 0.8}[i%2]
 					cs := runCase("starve-random", name, progs, mk(&randChooser{r, st}), probe())
 					steps += len(cs.Obs)
@@ -1479,13 +1677,16 @@ func main() {
 				steps += len(cs.Obs)
 				em.emit(cs)
 				cnt++
-				if !d.advance() || cnt >= *maxCases {
+				if !d.advance() || cnt >= *maxCases || !budgetLeft(em) {
 					break
 				}
 			}
 			fmt.Printf("ENUM program=%q mode=%s pre=%d threads=%d schedules=%d steps=%d complete=%v\n",
-				np.name, *mode, d.pre, len(np.progs), cnt, steps, cnt < *maxCases)
+				np.name, *mode, d.pre, len(np.progs), cnt, steps, cnt < *maxCases && budgetLeft(em))
 		}
+	}
+	if !budgetLeft(em) {
+		fmt.Printf("BUDGET exhausted: %d cases, about %d MB of steps\n", em.out.N, emittedBytes>>20)
 	}
 	fmt.Printf("CASES %d (duplicates dropped: %d)\n", em.out.N, em.dup)
 }
